@@ -62,6 +62,7 @@ Definition ierr_code (k : ierr) : nat := match k with EAmbig => 1 | EAssert => 2
 Record case := {
   ce : qop; ca : atree; calg : alg; cn : nat; ck : nat;
   clu : list (QM * (list nat * QM * QM)); cchol : list (QM * QM);
+  cnum : bool;           (* compare values (false: an oracle result has no exact rational form, e.g. a Cholesky factor with irrational entries) *)
   cflag : bool;          (* probed value of the flag inv_gmres_ambiguous *)
   cerr : nat;            (* 0 = the implementation returned; otherwise the code of the exception class *)
   crty : rty;
@@ -79,7 +80,7 @@ Definition check (c : case) : bool :=
       Nat.eqb (cerr c) 0 && rty_eqb (rtype r) (crty c) &&
       (let o := qto_op r in
        wf o && Nat.eqb (fst (shape o)) n && Nat.eqb (snd (shape o)) n &&
-       (if direct r then
+       (if direct r && cnum c then
           close_mn (ctol2 c) (matmat o (mkarr n n eye)) n n (cdense c)
           && close_mn (ctol2 c) (matmat o (qof_list_mn n (ck c) (cB c))) n (ck c) (cres c)
           && close_mn (ctol2 c) (rmatmat o (qof_list_mn (ck c) n (cBL c))) (ck c) n (cresl c)
